@@ -20,8 +20,9 @@ Definition handler (tag : Z) (cfg : config) (env : mgr_env) (mem : mgr_mem) : pr
 Definition mgr_case := (Z * config * mgr_env * list (list host) * mgr_mem * list tentry * Z * list (N * bool) * mgr_next * list (host * Z) * bool * bool * bool)%type.
 Definition ok_mgr (c : mgr_case) : bool :=
   let '(tag, cfg, env0, orders, mem, tr, t0, files, next, fa, panicked, emerge, maint) := c in
+  existsb (fun rank =>
   existsb (fun o => let env := with_morder env0 o in
-  match replay (handler tag cfg env mem) (init_rstate tr t0 files) with
+  match replay_r rank (handler tag cfg env mem) (init_rstate tr t0 files) with
   | RDone (GNext n, m') rs =>
       negb panicked && next_eqb n next && drained rs && hostz_eqb (nonzero (am_failed_at (mm_an m'))) fa &&
       Bool.eqb (file_get f_emerge (r_files rs)) emerge && Bool.eqb (file_get f_maintenance (r_files rs)) maint
@@ -31,7 +32,7 @@ Definition ok_mgr (c : mgr_case) : bool :=
       (match assoc (tc_master tc) fa with Some t => failed_at m' (tc_master tc) =? t | None => failed_at m' (tc_master tc) =? 0 end)
   | RPanic _ rs => panicked && drained rs
   | _ => false
-  end) orders.
+  end) orders) (rank_candidates (map fst (me_uuid_of env0))).
 Definition mismatches_mgr := mismatches ok_mgr.
 
 (* an iteration that was cut short (the process died before one of its calls): every call it did make
